@@ -30,6 +30,7 @@ class _T:
 
 class Sched:
     cur = None
+    dead = False        # the last scheduler ended in a deadlock: its blocked workers still hold their locks
 
     def __init__(self, eng, preempt_bound, lines=False):
         self.eng = eng
@@ -44,6 +45,7 @@ class Sched:
         self.trace = []
         self.running = False
         Sched.cur = self
+        Sched.dead = False
 
     # ------------------------------------------------------------ threads
     def spawn(self, fn, name=None):
@@ -129,6 +131,7 @@ class Sched:
         if nxt is None:
             if any(not x.done for x in self.threads) and self.abort is None:
                 self.deadlock = True
+                Sched.dead = True
             self.main_sem.release()
         else:
             self.switches += 1
@@ -154,6 +157,7 @@ class Sched:
         en = self.enabled()
         if not en:
             self.deadlock = True
+            Sched.dead = True
             if self.abort is None:
                 self.abort = PathEnd()
             self.main_sem.release()
@@ -207,6 +211,10 @@ class FakeLock:
         s = Sched.cur
         cur = s.me() if s is not None and s.running else None
         if cur is None:
+            if self.locked_ and Sched.dead:
+                # the owner is a worker of a deadlocked run and will never release it: the code that unwinds after the
+                # reported deadlock (the library's rollback) takes the lock over
+                return True
             if self.locked_:
                 raise HarnessError('lock held outside the scheduler')
             self.locked_ = True
